@@ -349,6 +349,25 @@ def _annotate_ast_nodes(ast_node: ast.AST) -> AnnotatedAst:
     return aast_node
 
 
+def _char_col_offset(text: FileText, ast_node) -> int:
+    """
+    Return ``ast_node.col_offset`` as a character offset.
+
+    The ``col_offset`` attribute set by the compiler is a UTF-8 byte offset
+    within the line; `FilePos` columns count characters.  The two differ when
+    non-ASCII characters precede the node on its line.
+    """
+    col_offset = ast_node.col_offset
+    lines = text.lines
+    lineno = ast_node.lineno
+    if col_offset <= 0 or not 1 <= lineno <= len(lines):
+        return col_offset
+    line = lines[lineno - 1]
+    if line.isascii():
+        return col_offset
+    return len(line.encode("utf-8")[:col_offset].decode("utf-8", "replace"))
+
+
 def _annotate_ast_startpos(
     ast_node: ast.AST, parent_ast_node, minpos: FilePos, text: FileText, flags
 ) -> bool:
@@ -458,10 +477,10 @@ def _annotate_ast_startpos(
             delta = (
                 aast_node.decorator_list[0].lineno - 1,
                 # The col_offset doesn't include the @
-                aast_node.decorator_list[0].col_offset - 1,
+                _char_col_offset(text, aast_node.decorator_list[0]) - 1,
             )
         else:
-            delta = (aast_node.lineno - 1, aast_node.col_offset)
+            delta = (aast_node.lineno - 1, _char_col_offset(text, aast_node))
 
         # Not a multiline string literal.  (I.e., it could be a non-string or
         # a single-line string.)
